@@ -262,6 +262,37 @@ class ProgGen:
             self.w("R.reg(outer)")
             self.plain.append(("outer", ["{0}"]))
             self.w("")
+        if not self.safe_generators and r.random() < 0.3:
+            # a recursive closure that is reachable only through its own free variable: it is called through a
+            # container, so no caller frame holds it in a local and no global carries its name
+            self.w("REG = {}")
+            self.w("def make_cd():")
+            self.w("    def cd(n, a=None):")
+            self.w("        R.enter(['n', 'a'])")
+            self.w("        if n > 0:")
+            self.w("            cd(n - 1, a)")
+            self.w(f"        _v = {self.v()}")
+            self.w("        R.act('return', _v)")
+            self.w("        return _v")
+            self.w("    R.reg(cd)")
+            self.w("    REG['cd'] = cd")
+            self.w("make_cd()")
+            self.plain.append(("REG['cd']", ["%d, {0}" % r.choice([0, 1, 2])]))
+            self.w("")
+        if not self.safe_generators and r.random() < 0.3:
+            # class methods of classes that are not module globals: a class nested in a class, a class built in a function
+            self.w("class Shape:")
+            self.w("    class Registry:")
+            cn = self.def_plain("register", ind=8, receiver="cls", deco="@classmethod")
+            self.w("        R.reg(register.__func__)")
+            self.w("def build_model():")
+            self.w("    class Model:")
+            cb = self.def_plain("create", ind=8, receiver="cls", deco="@classmethod")
+            self.w("        R.reg(create.__func__)")
+            self.w("    return Model")
+            self.w("LocalModel = [build_model()]")
+            self.plain += [("Shape.Registry.register", cn), ("Shape.Registry().register", cn), ("LocalModel[0].create", cb)]
+            self.w("")
         # classes
         if r.random() < 0.8:
             self.w("class Base:")
